@@ -19,6 +19,7 @@ import (
 	"verif/harness/internal/ev"
 	"verif/harness/internal/gt"
 	"verif/harness/internal/keys"
+	"verif/harness/internal/probe"
 	"verif/harness/internal/sgen"
 )
 
@@ -179,7 +180,66 @@ func respell(t *rapid.T, w world) (world, []string) {
 			how = append(how, "matrix-nil-empty")
 		}
 	} else {
+		// nil versus empty INSIDE a matrix that is not empty as a whole
+		if len(m.Adjustments) == 0 && rapid.Bool().Draw(t, "adjflip") {
+			if m.Adjustments == nil {
+				m.Adjustments = pipeline.MatrixAdjustments{}
+			} else {
+				m.Adjustments = nil
+			}
+			how = append(how, "inner:adjustments-nil-empty")
+		}
+		if len(m.RemainingFields) == 0 && rapid.Bool().Draw(t, "mremflip") {
+			if m.RemainingFields == nil {
+				m.RemainingFields = map[string]any{}
+			} else {
+				m.RemainingFields = nil
+			}
+			how = append(how, "inner:matrix-extras-nil-empty")
+		}
+		// setup / `with` / a dimension's value list: nil and empty sign differently (known finding F18);
+		// while it is listed these three are left alone (counted), otherwise they must collide as well
+		if ev.Known("F18") {
+			if len(m.Setup) == 0 {
+				rec.Excluded("nil vs empty matrix setup inside a non-empty matrix (known finding F18)")
+			}
+		} else {
+			if len(m.Setup) == 0 && rapid.Bool().Draw(t, "setupflip") {
+				if m.Setup == nil {
+					m.Setup = pipeline.MatrixSetup{}
+				} else {
+					m.Setup = nil
+				}
+				how = append(how, "inner:setup-nil-empty")
+			}
+			for d, vals := range m.Setup {
+				if len(vals) == 0 && rapid.Bool().Draw(t, "dimflip") {
+					if vals == nil {
+						m.Setup[d] = []string{}
+					} else {
+						m.Setup[d] = nil
+					}
+					how = append(how, "inner:dimension-values-nil-empty")
+				}
+			}
+		}
 		for _, a := range m.Adjustments {
+			if !ev.Known("F18") && len(a.With) == 0 && rapid.Bool().Draw(t, "withflip") {
+				if a.With == nil {
+					a.With = pipeline.MatrixAdjustmentWith{}
+				} else {
+					a.With = nil
+				}
+				how = append(how, "inner:with-nil-empty")
+			}
+			if len(a.RemainingFields) == 0 && rapid.Bool().Draw(t, "aremflip") {
+				if a.RemainingFields == nil {
+					a.RemainingFields = map[string]any{}
+				} else {
+					a.RemainingFields = nil
+				}
+				how = append(how, "inner:adjustment-extras-nil-empty")
+			}
 			a.With = pipeline.MatrixAdjustmentWith(rebuildStrMap(t, a.With))
 			switch s := a.Skip.(type) {
 			case nil:
@@ -232,6 +292,17 @@ func anyKey(m map[string]string) (string, bool) {
 }
 
 var differs = []differ{
+	{"command-line-ending", func(t *rapid.T, w *world) bool {
+		switch c := w.Step.Command; {
+		case strings.Contains(c, "\r\n"):
+			w.Step.Command = strings.Replace(c, "\r\n", "\n", 1)
+		case strings.Contains(c, "\n"):
+			w.Step.Command = strings.Replace(c, "\n", "\r\n", 1)
+		default:
+			return false
+		}
+		return true
+	}},
 	// boundary shifts: plain concatenation of the signed values would hide these
 	{"shift-command-to-repo", func(t *rapid.T, w *world) bool {
 		r := []rune(w.Step.Command)
@@ -918,4 +989,11 @@ func TestPropSignStepsPayload(t *testing.T) {
 			return map[string]any{"steps": len(order), "pipeline_env": penv, "first_step": want[0].before, "key": kp.Kind}
 		})
 	})
+}
+
+func TestKnownFindings(t *testing.T) {
+	ev.SkipIfReplayingOther(t)
+	if ev.Shard() == 0 {
+		probe.F18("C14")
+	}
 }
